@@ -390,9 +390,13 @@ class Tensor:
         return self._ew(o, lambda a, b: z3.Or(a, b))
 
     def __matmul__(self, o):
+        if not isinstance(o, Tensor):
+            return NotImplemented
         return matmul(self, o)
 
     def __rmatmul__(self, o):
+        if not isinstance(o, Tensor):
+            return NotImplemented
         return matmul(o, self)
 
     # -- reductions --------------------------------------------------------------------------------
